@@ -476,7 +476,11 @@ def kani_playback(scratch, o, native):
         with open(srcfile, "w") as f:
             f.write(orig.replace(os.path.join(KANI_DIR, modfile), pbcopy))
         cmd = ["cargo", "kani", "playback", "-Z", "concrete-playback", "--", names[0]]
-        p = subprocess.run(cmd, cwd=scratch.src, env=dict(env, CARGO_TARGET_DIR=tdir + "-native"), capture_output=True, text=True, timeout=1200)
+        # --cfg verif_native switches the modular (stubbed) obligations into their native-replay mode: stubs are not
+        # applied by `cargo kani playback`, so those harnesses install the counterexample's memory function into a real
+        # machine and let the real accessors run (never compiled into a CBMC run)
+        p = subprocess.run(cmd, cwd=scratch.src, env=dict(env, CARGO_TARGET_DIR=tdir + "-native", RUSTFLAGS="--cfg verif_native"),
+                           capture_output=True, text=True, timeout=1800)
         out2 = p.stdout + p.stderr
         m = re.search(r"panicked at ([^\n]*)\n([^\n]*)", out2)
         res["native"] = {"cmd": " ".join(cmd), "reproduced": ("test result: FAILED" in out2),
